@@ -4,7 +4,7 @@
     Cli/FsShow.v; the document universe is the toy one of that file. *)
 From Coq Require Import List Bool ZArith NArith String.
 Import ListNotations.
-From DD Require Import Base.Sx Base.PyStr Cli.FsModel Cli.FsShow Cli.GenModel Cli.FormatModel.
+From DD Require Import Base.Sx Base.PyStr Cli.FsModel Cli.FsShow Cli.GenModel Cli.FormatModel Cli.PlaceModel.
 Local Open Scope string_scope.
 
 Definition phase_name (ph : phase) : string :=
@@ -102,4 +102,28 @@ Definition show_history (a0 bk0 : option zc) (hs : list hcmd) : sx :=
                                       t_unpickle t_apply pA (fst pr) f0 in
              SL [sx_file (f pA); sx_file (f (bak pA));
                  sx_cli (cli_report (h_debug (snd pr)) (last os Done))])
+          (combine (prefixes cs) hs)).
+
+(** The same two renderings with the placement of the json serialisation call
+    OBSERVED on the implementation's call trace (Cli/PlaceModel.v), as
+    FsShow.show_pipeline / show_save have it: moving [json_dumps] out of the
+    [with] block is a property-preserving rewrite and must not break the
+    correspondence.  [show_patch_gp DInside] / [show_history_p] with [DInside]
+    everywhere are [show_patch_g] / [show_history] (PlaceProofs.patch_cmd_gp_inside,
+    run_hist_p_inside). *)
+Definition show_patch_gp (pos : dumps_pos) (pathA : pystr) (loadable savable : list fmt) (ev : env Z) (keep debug : bool)
+           (a0 bk0 : option zc) (from res : Z) (sch : list (step * fault Z)) : sx :=
+  let f0 := fs_of (opt_file pathA a0 ++ opt_file (bak pathA) bk0 ++ [(pP, t_pickle (from, res))]) in
+  let '(f, o) := patch_cmd_gp (fun _ => t_parse) (fun _ => t_dump) (mem_fmt loadable) (mem_fmt savable)
+                              t_unpickle t_apply pos ev keep pathA pP (sched_of sch) f0 in
+  SL [sx_file (f pathA); sx_file (f (bak pathA)); sx_cli (cli_report debug o)].
+
+Definition show_history_p (a0 bk0 : option zc) (hs : list (dumps_pos * hcmd)) : sx :=
+  let f0 := fs_of (opt_file pA a0 ++ opt_file (bak pA) bk0 ++ hist_files 0 (map snd hs)) in
+  let cs := combine (map fst hs) (hist_cmds 0 (map snd hs)) in
+  SL (map (fun pr : list (dumps_pos * cmd Z) * (dumps_pos * hcmd) =>
+             let '(f, os) := run_hist_p (fun _ => t_parse) (fun _ => t_dump) (fun _ => true) (fun _ => true)
+                                        t_unpickle t_apply pA (fst pr) f0 in
+             SL [sx_file (f pA); sx_file (f (bak pA));
+                 sx_cli (cli_report (h_debug (snd (snd pr))) (last os Done))])
           (combine (prefixes cs) hs)).
